@@ -349,6 +349,8 @@ def _run_cmp(p, fc, meth, args, kw, files):
         return None, 'raises %s' % e, fs
     except Unsupported as e:
         raise AnalysisError('%s is not evaluable: %s' % (meth, e))
+    except (OSError, TypeError, ValueError, KeyError, IndexError) as e:
+        return None, 'raises %s: %s (an internal error instead of a failed comparison)' % (type(e).__name__, e), fs
     failures = r[0]
     msgs = r[1]
     lines = msgs.attrs.get('lines') if hasattr(msgs, 'attrs') else None
@@ -387,6 +389,23 @@ def artefacts(run, p, fc):
              ('removable-line-in-the-surplus-tail', 'alpha\nbeta 12 ms\n', {'remove_lines': ['SKIP', 'gamma']}, False, None),
              ('removable-line-in-the-actual-tail', ref + 'row 2\nSKIP stamp\nrow 3\n', {'remove_lines': ['SKIP']}, False, None)]
     n = 0
+    # an empty reference: the comparison must fail as a comparison, with its artefacts, not with an internal error
+    for entry, args_, files_ in (('check_string_against_file', ['alpha\nSKIP x\n', '/ref/empty.txt'], {'/ref/empty.txt': ''}),
+                                 ('check_file', ['/w/out.txt', '/ref/empty.txt'], {'/ref/empty.txt': '', '/w/out.txt': 'alpha\nSKIP x\n'})):
+        failures, msg, fs = _run_cmp(p, fc, entry, args_, {'remove_lines': ['SKIP']}, files_)
+        n += 1
+        probs = []
+        if failures is None:
+            probs.append(msg)
+        elif not failures:
+            probs.append('passes although the reference is empty and the actual is not')
+        else:
+            named = _re.findall(r'^\s+(?:diff|cmp|fc)\s+(\S+)\s+(\S+)\s*$', msg, _re.M)
+            probs += ['the message names %s, which does not exist' % q for pair in named for q in pair if q not in fs.files]
+            if not named:
+                probs.append('the message names no comparison command')
+        run.ob('C15-ARTEFACTS', '%s:empty-reference' % entry, not probs, '%s against an empty reference with exclusions in force: %s' % (
+            entry, '; '.join(probs[:2]) or 'fails with its artefacts %s' % sorted(fs.written)), fn=fc.methods[entry])
     for entry in ('check_string_against_file', 'check_file'):
         for name, actual, kw, passes, badlines in texts:
             files = {'/ref/out.txt': ref}
@@ -485,4 +504,4 @@ def artefacts(run, p, fc):
                 probs.append('the message does not name both files')
         run.ob('C15-ARTEFACTS', 'check_binary_file:%s' % name, not probs, 'check_binary_file, %s: %s' % (name, '; '.join(probs[:2]) or 'as stated'),
                fn=fc.methods['check_binary_file'])
-    run.floor('C15-ARTEFACTS', n, 39)
+    run.floor('C15-ARTEFACTS', n, 41)
